@@ -171,3 +171,290 @@ Proof.
   - rewrite !flat_SRep. rewrite Z2Nat.inj_mul by lia. apply rep_list_mul.
   - apply wfc_cons. split; [|apply wfc_nil]. cbn [wfb]. apply andb_true_iff. split; [apply Z.leb_le; nia | exact Hb].
 Qed.
+
+(* ------------------------------------------------------------------ one operation: model = documented instruction *)
+Definition instr_list (l : leaf) : list sinstr := match instr_of l with IEmit s => [s] | _ => [] end.
+(* an instruction that stands for itself: valid, not a block, nothing to split *)
+Definition atomic (s : sinstr) : Prop := wfb s = true /\ flat [s] = [s].
+
+Ltac zcbn := cbn -[Z.add Z.sub Z.opp Z.leb Z.ltb Z.eqb Z.mul valid_qubit valid_rec].
+Ltac zcbn_in H := cbn -[Z.add Z.sub Z.opp Z.leb Z.ltb Z.eqb Z.mul valid_qubit valid_rec] in H.
+Ltac eq_recs :=
+  lazymatch goal with
+  | |- ?x = ?y => first [ reflexivity | lazymatch type of x with Z => lia | _ => progress f_equal; eq_recs end ]
+  end.
+Ltac finish :=
+  rewrite ?andb_false_r; zcbn;
+  repeat match goal with
+  | |- context [if ?b then _ else _] => let E := fresh "E" in destruct b eqn:E; zcbn
+  end;
+  try exact I;
+  try (split; [ try unfold rec_of; eq_recs | split; reflexivity ]).
+
+(* for every operation the exporter accepts, the emitted instruction is the documented one (Spec.spec_instr):
+   the generated table against the hand-written documentation, the generated detector/observable/shift methods against
+   the record-position reading, `unique_in_order` of the channel ids against "exactly its qubits" *)
+Lemma leaf_doc l :
+  match instr_of l with
+  | IEmit s => spec_instr l = [s] /\ atomic s
+  | ISkip => spec_instr l = []
+  | IErr => True
+  end.
+Proof.
+  destruct l as [k qs a]. unfold instr_of. cbn [l_kind l_qs l_args].
+  destruct (shape_ok k qs) eqn:S; cbn [negb]; [|exact I].
+  destruct k; zcbn_in S.
+  all: try (destruct qs as [|q [|q2 [|q3 qs]]]; try discriminate S).
+  all: zcbn; try unfold named_instr; zcbn.
+  all: try reflexivity.
+  all: try solve [finish].
+  all: try (rewrite ?Z.eqb_refl; zcbn; destruct (Z.eqb_spec q2 q) as [->|Nq]; zcbn; rewrite ?Z.eqb_refl; zcbn; solve [finish]).
+  all: destruct a as [|[a1|] [|[a2|] [|[a3|] [|[a4|] [|[a5|] [|a6 a]]]]]]; zcbn; try exact I; try reflexivity.
+  all: try unfold of_gen; zcbn.
+  all: solve [finish].
+Qed.
+
+Lemma instr_list_doc l : instr_of l <> IErr -> instr_list l = spec_instr l.
+Proof.
+  intros H. unfold instr_list. pose proof (leaf_doc l) as D. destruct (instr_of l); try congruence.
+  symmetry; apply D.
+Qed.
+
+Lemma instr_emit_atomic l s : instr_of l = IEmit s -> atomic s.
+Proof. intros H. pose proof (leaf_doc l) as D. rewrite H in D. apply D. Qed.
+
+(* ------------------------------------------------------------------ the walk *)
+Lemma Forall_rep_list {A} (P : A -> Prop) n l : Forall P l -> Forall P (rep_list n l).
+Proof. intros H; induction n; simpl; [constructor | apply Forall_app; split; assumption]. Qed.
+
+Section Walk.
+(* any per-leaf translation that agrees with instr_of wherever instr_of does not fail *)
+Variable f : leaf -> list sinstr.
+Hypothesis f_ok : forall l, match instr_of l with IEmit s => f l = [s] | ISkip => f l = [] | IErr => True end.
+
+Definition walk_ok (i : item) : Prop :=
+  forall acc c, wfc acc -> construct_item i acc = Some c ->
+    wfc c /\ flat c = flat acc ++ flat_map f (expand_item i) /\ Forall (fun l => instr_of l <> IErr) (expand_item i).
+
+Lemma ofold_walk body : Forall walk_ok body ->
+  forall acc c, wfc acc -> ofold construct_item body acc = Some c ->
+    wfc c /\ flat c = flat acc ++ flat_map f (expand body) /\ Forall (fun l => instr_of l <> IErr) (expand body).
+Proof.
+  induction 1 as [|x r Hx Hr IH]; intros acc c Wa; simpl.
+  - intros [= <-]. rewrite app_nil_r. split; [exact Wa | split; [reflexivity | constructor]].
+  - destruct (construct_item x acc) as [c1|] eqn:E1; [|discriminate]. intros E2.
+    destruct (Hx acc c1 Wa E1) as (W1 & F1 & O1).
+    destruct (IH c1 c W1 E2) as (W2 & F2 & O2).
+    split; [exact W2|]. split.
+    + unfold expand in *. simpl. rewrite F2, F1, flat_map_app. now rewrite app_assoc.
+    + unfold expand in *. simpl. apply Forall_app. split; assumption.
+Qed.
+
+Lemma walk_item i : walk_ok i.
+Proof.
+  induction i as [l | n body IH] using item_ind'; intros acc c Wa; simpl.
+  - pose proof (f_ok l) as Fl. pose proof (leaf_doc l) as D.
+    destruct (instr_of l) as [|s|] eqn:E; try discriminate; intros [= <-].
+    + rewrite Fl. simpl. rewrite app_nil_r. split; [exact Wa | split; [reflexivity | constructor; [congruence | constructor]]].
+    + destruct D as [_ [Ws As]]. destruct (cappend_flat acc s Wa Ws) as [Fc Wc].
+      rewrite Fl. simpl. rewrite Fc, As. split; [exact Wc | split; [reflexivity | constructor; [congruence | constructor]]].
+  - destruct (ofold construct_item body []) as [inner|] eqn:E1; [|discriminate].
+    destruct (cmul inner n) as [m|] eqn:E2; [|discriminate]. intros [= <-].
+    destruct (ofold_walk body IH [] inner wfc_nil E1) as (Wi & Fi & Oi). simpl in Fi.
+    destruct (cmul_flat inner n m Wi E2) as [Fm Wm].
+    destruct (cadd_flat acc m Wa Wm) as [Fc Wc].
+    split; [exact Wc|]. split.
+    + rewrite Fc, Fm, Fi. unfold expand. now rewrite flat_map_rep_list.
+    + apply Forall_rep_list. exact Oi.
+Qed.
+
+Lemma walk_tree t c : to_stim t = Some c ->
+  wfc c /\ flat c = flat_map f (expand t) /\ Forall (fun l => instr_of l <> IErr) (expand t).
+Proof.
+  intros H. apply (ofold_walk t) with (acc := []) in H; [exact H | | apply wfc_nil].
+  apply Forall_forall. intros i _. apply walk_item.
+Qed.
+End Walk.
+
+Lemma instr_list_ok l : match instr_of l with IEmit s => instr_list l = [s] | ISkip => instr_list l = [] | IErr => True end.
+Proof. unfold instr_list. destruct (instr_of l); auto. Qed.
+Lemma spec_instr_ok l : match instr_of l with IEmit s => spec_instr l = [s] | ISkip => spec_instr l = [] | IErr => True end.
+Proof. pose proof (leaf_doc l) as D. destruct (instr_of l); auto. apply D. Qed.
+
+(* C08, first clause: the normal form of the export is the in-order image of the expanded listing *)
+Theorem stim_in_order t c : to_stim t = Some c -> normalise c = fold_coords [] (flat_map instr_list (expand t)).
+Proof. intros H. unfold normalise. now rewrite (proj1 (proj2 (walk_tree instr_list instr_list_ok t c H))). Qed.
+
+Theorem stim_in_order_documented t c : to_stim t = Some c -> flat c = spec_image t /\ normalise c = spec_normal t.
+Proof.
+  intros H. pose proof (proj1 (proj2 (walk_tree spec_instr spec_instr_ok t c H))) as E.
+  unfold normalise, spec_normal, spec_image. now rewrite E.
+Qed.
+
+(* the exporter refuses exactly by raising: when it returns, every expanded leaf was translatable *)
+Lemma stim_leaves_ok t c : to_stim t = Some c -> Forall (fun l => instr_of l <> IErr) (expand t).
+Proof. intros H. apply (walk_tree instr_list instr_list_ok t c H). Qed.
+
+Theorem stim_same_listing_identical t1 t2 c1 c2 :
+  expand t1 = expand t2 -> to_stim t1 = Some c1 -> to_stim t2 = Some c2 -> normalise c1 = normalise c2.
+Proof. intros E H1 H2. rewrite (stim_in_order t1 c1 H1), (stim_in_order t2 c2 H2). now rewrite E. Qed.
+
+(* ------------------------------------------------------------------ measurement counts *)
+Lemma nmeas_app a b : nmeas (a ++ b) = nmeas a + nmeas b.
+Proof. unfold nmeas. induction a; simpl; lia. Qed.
+
+Lemma nmeas_rep_list n l : nmeas (rep_list n l) = Z.of_nat n * nmeas l.
+Proof. induction n as [|n IH]; [reflexivity|]. cbn [rep_list]. rewrite nmeas_app, IH. lia. Qed.
+
+Lemma nmeas_map_SI g a L : nmeas (map (SI g a) L) = if measures g then Z.of_nat (List.length (List.concat L)) else 0.
+Proof.
+  induction L as [|x L IH]; simpl.
+  - now destruct (measures g).
+  - change (fold_right (fun x s => nmeas_i x + s) 0 (map (SI g a) L)) with (nmeas (map (SI g a) L)).
+    rewrite IH. destruct (measures g); [|reflexivity]. rewrite app_length. lia.
+Qed.
+
+Lemma nmeas_flat_i i : wfb i = true -> nmeas (flat [i]) = nmeas_i i.
+Proof.
+  induction i as [g a ts | n b IH] using sinstr_ind'; intros W.
+  - rewrite flat_SI. cbn [split_i]. destruct (not_fusable g).
+    + simpl. lia.
+    + rewrite nmeas_map_SI, chunk_concat. reflexivity.
+  - rewrite flat_SRep, nmeas_rep_list. cbn [wfb] in W. apply andb_true_iff in W. destruct W as [N Wb].
+    apply Z.leb_le in N. rewrite Z2Nat.id by exact N. cbn [nmeas_i]. f_equal.
+    change (fold_right (fun x s => nmeas_i x + s) 0 b) with (nmeas b).
+    clear N. induction b as [|x b IHb]; [reflexivity|].
+    simpl in Wb. apply andb_true_iff in Wb. destruct Wb as [Wx Wb]. inversion IH as [|? ? Hx Hb]; subst.
+    rewrite flat_cons, nmeas_app, (Hx Wx), (IHb Hb Wb). reflexivity.
+Qed.
+
+Lemma nmeas_flat c : wfc c -> nmeas (flat c) = nmeas c.
+Proof.
+  induction c as [|x c IH]; intros W; [reflexivity|]. apply wfc_cons in W. destruct W as [Wx Wc].
+  rewrite flat_cons, nmeas_app, (nmeas_flat_i x Wx), (IH Wc). reflexivity.
+Qed.
+
+Lemma leaf_meas l : instr_of l <> IErr -> nmeas (instr_list l) = if is_measure l then 1 else 0.
+Proof.
+  destruct l as [k qs a]. unfold instr_list, instr_of, is_measure. cbn [l_kind l_qs l_args].
+  destruct (shape_ok k qs) eqn:S; cbn [negb]; [|congruence].
+  destruct k; zcbn_in S.
+  all: try (destruct qs as [|q [|q2 [|q3 qs]]]; try discriminate S).
+  all: zcbn; try unfold named_instr; zcbn.
+  all: try reflexivity.
+  all: try solve [rewrite ?andb_false_r; repeat match goal with |- context [if ?b then _ else _] => destruct b end; (reflexivity || congruence)].
+  all: destruct a as [|[a1|] [|[a2|] [|[a3|] [|[a4|] [|[a5|] [|a6 a]]]]]]; zcbn; try congruence; try reflexivity.
+  all: try unfold of_gen; zcbn.
+  all: solve [rewrite ?andb_false_r; repeat match goal with |- context [if ?b then _ else _] => destruct b end; (reflexivity || congruence)].
+Qed.
+
+Lemma nmeas_image ls : Forall (fun l => instr_of l <> IErr) ls ->
+  nmeas (flat_map instr_list ls) = Z.of_nat (List.length (filter is_measure ls)).
+Proof.
+  induction 1 as [|l ls Hl _ IH]; [reflexivity|]. simpl. rewrite nmeas_app, IH, (leaf_meas l Hl).
+  destruct (is_measure l); simpl List.length; lia.
+Qed.
+
+(* C08: the export holds exactly one measurement per DispersiveMeasure of the expanded listing *)
+Theorem stim_measurement_count t c : to_stim t = Some c -> nmeas c = spec_nmeas t.
+Proof.
+  intros H. destruct (walk_tree instr_list instr_list_ok t c H) as (W & F & O).
+  rewrite <- (nmeas_flat c W), F. apply nmeas_image. exact O.
+Qed.
+
+Lemma nmeas_perm a b : Permutation a b -> nmeas a = nmeas b.
+Proof. unfold nmeas. induction 1; simpl; lia. Qed.
+
+(* C08, second clause reduced to its listing-level premise: if the unrolled listing is a rearrangement of the expanded
+   listing, the two exports hold the same instructions (as multisets of atomic instructions) and as many measurements *)
+Theorem stim_perm_multiset t1 t2 c1 c2 :
+  Permutation (expand t1) (expand t2) -> to_stim t1 = Some c1 -> to_stim t2 = Some c2 ->
+  Permutation (flat c1) (flat c2) /\ nmeas c1 = nmeas c2.
+Proof.
+  intros P H1 H2.
+  destruct (walk_tree instr_list instr_list_ok t1 c1 H1) as (W1 & F1 & _).
+  destruct (walk_tree instr_list instr_list_ok t2 c2 H2) as (W2 & F2 & _).
+  assert (PF : Permutation (flat c1) (flat c2)) by (rewrite F1, F2; now apply Permutation_flat_map).
+  split; [exact PF|]. rewrite <- (nmeas_flat c1 W1), <- (nmeas_flat c2 W2). now apply nmeas_perm.
+Qed.
+
+(* the boolean multiset test used by the correspondence run accepts every rearrangement *)
+Lemma count_i_perm x a b : Permutation a b -> count_i x a = count_i x b.
+Proof. unfold count_i. induction 1; simpl; repeat (destruct (sinstr_eqb x _)); simpl; congruence. Qed.
+
+Lemma perm_multiset_eqb a b : Permutation a b -> multiset_eqb a b = true.
+Proof.
+  intros P. unfold multiset_eqb. rewrite (Permutation_length P), Nat.eqb_refl. simpl.
+  apply forallb_forall. intros x _. rewrite (count_i_perm x a b P). apply Nat.eqb_refl.
+Qed.
+
+(* ------------------------------------------------------------------ tables and detector targets *)
+Theorem stim_table_documented k g : doc_gate k = Some g <-> stim_gate k = Some (SF_Name g).
+Proof. destruct k; simpl; split; intros H; try discriminate H; try (inversion H; reflexivity). Qed.
+
+Theorem stim_table_rest k : doc_gate k = None ->
+  stim_gate k = match k with
+                | K_Barrier => Some (SF_Const "TICK")
+                | K_DetectorOperation | K_LogicalObservableOperation | K_CoordinateShiftOperation => Some SF_Own
+                | _ => None
+                end.
+Proof. destruct k; simpl; intros H; try discriminate H; reflexivity. Qed.
+
+Definition gi_name (g : gen_instr) := match g with GI n _ _ => n end.
+Definition gi_targets (g : gen_instr) := match g with GI _ t _ => t end.
+Definition gi_args (g : gen_instr) := match g with GI _ _ a => a end.
+
+(* the five target shapes (and the fall-through): read at a moment when n = last_acquisition_index + 1 measurements have
+   been made, rec[v] is acquisition n + v; the targets are exactly the record positions the detector names *)
+Theorem detector_targets_spec q la m s r so :
+  let gi := DetectorOperation_to_stim_instruction (Some q) (Some la) m s r so in
+  gi_name gi = "DETECTOR" /\
+  exists vs, gt_vals (gi_targets gi) = Some vs /\ map (fun v => (la + 1) + v) vs = det_positions (la + 1) m s r so
+             /\ (gi_args gi = match m with Some _ => [Some q; Some 0] | None => [] end).
+Proof.
+  destruct m as [m|], s as [s|], r as [r|], so as [so|]; cbn; (split; [reflexivity|]);
+    eexists; (split; [reflexivity|]); split; try reflexivity; cbn; repeat (f_equal; try lia).
+Qed.
+
+(* without last_acquisition_index a detector that names a measurement has no record offset (Python: TypeError) *)
+Theorem detector_needs_last q m s r so :
+  gt_vals (gi_targets (DetectorOperation_to_stim_instruction (Some q) None (Some m) s r so)) = None.
+Proof. destruct s, r, so; reflexivity. Qed.
+
+Theorem observable_target_spec q la m :
+  LogicalObservableOperation_to_stim_instruction (Some q) (Some la) (Some m)
+  = GI "OBSERVABLE_INCLUDE" [GT_rec (Some (m - (la + 1)))] [Some 0].
+Proof. reflexivity. Qed.
+
+(* ------------------------------------------------------------------ non-vacuity *)
+Definition ex_tree : list item :=
+  [Leaf (MkLeaf K_Rx180 [0] []); Leaf (MkLeaf K_Rx180 [1] []);
+   Block 2 [Leaf (MkLeaf K_DispersiveMeasure [0] []); Leaf (MkLeaf K_Wait [1] [Some 6]);
+            Leaf (MkLeaf K_DetectorOperation [0] [Some 0; Some 0; None; None; None]);
+            Block 3 [Leaf (MkLeaf K_CoordinateShiftOperation [0] [Some 1; Some 0]); Leaf (MkLeaf K_Ry90 [1] [])]];
+   Leaf (MkLeaf K_CPhase [0; 1] []); Leaf (MkLeaf K_Barrier [0; 1] [])].
+
+Example ex_tree_exports :
+  to_stim ex_tree = Some [SI "X" [] [TQ 0; TQ 1];
+                          SRep 2 [SI "M" [] [TQ 0]; SI "DETECTOR" [0; 0] [TRec (-1)];
+                                  SRep 3 [SI "SHIFT_COORDS" [0; 1] []; SI "SQRT_Y" [] [TQ 1]]];
+                          SI "CZ" [] [TQ 0; TQ 1]; SI "TICK" [] []]
+  /\ wf_tree ex_tree = true.
+Proof. split; vm_compute; reflexivity. Qed.
+
+Example ex_tree_normal :
+  spec_normal ex_tree = [SI "X" [] [TQ 0]; SI "X" [] [TQ 1];
+                         SI "M" [] [TQ 0]; SI "DETECTOR" [0; 0] [TRec (-1)]; SI "SQRT_Y" [] [TQ 1]; SI "SQRT_Y" [] [TQ 1]; SI "SQRT_Y" [] [TQ 1];
+                         SI "M" [] [TQ 0]; SI "DETECTOR" [0; 3] [TRec (-1)]; SI "SQRT_Y" [] [TQ 1]; SI "SQRT_Y" [] [TQ 1]; SI "SQRT_Y" [] [TQ 1];
+                         SI "CZ" [] [TQ 0; TQ 1]; SI "TICK" [] []].
+Proof. vm_compute. reflexivity. Qed.
+
+(* a permuted listing (the unrolled form of the block) exports the same multiset *)
+Example ex_perm :
+  let t1 := [Block 2 [Leaf (MkLeaf K_Rx180 [0] []); Leaf (MkLeaf K_DispersiveMeasure [1] [])]] in
+  let t2 := [Leaf (MkLeaf K_Rx180 [0] []); Leaf (MkLeaf K_Rx180 [0] []); Leaf (MkLeaf K_DispersiveMeasure [1] []); Leaf (MkLeaf K_DispersiveMeasure [1] [])] in
+  Permutation (expand t1) (expand t2) /\ to_stim t1 <> None /\ to_stim t2 <> None.
+Proof.
+  cbn. split; [|split; discriminate].
+  apply perm_skip. apply perm_swap.
+Qed.
